@@ -108,6 +108,10 @@ func Strip(v ssa.Value) ssa.Value {
 					v = s
 					continue
 				}
+				if s := reachingStore(x); s != nil {
+					v = s
+					continue
+				}
 			}
 			return v
 		case *ssa.Phi:
@@ -659,4 +663,81 @@ func VSelfOrEmbedded(pred func(ssa.Value) bool) func(ssa.Value) bool {
 		}
 		return false
 	}
+}
+
+
+// reachingStore resolves a load from a multi-store local cell (typically a named
+// result such as `err` that lives in memory because of a defer) to the value of
+// the store that reaches it, when that store is found by walking straight back
+// through the load's block and its unique-predecessor chain with no intervening
+// call that could run a closure writing the cell.
+func reachingStore(ld *ssa.UnOp) ssa.Value {
+	al, ok := ld.X.(*ssa.Alloc)
+	if !ok {
+		return nil
+	}
+	if _, ok := cellStores(al); !ok {
+		// a closure writes the cell or its address escapes: only resolve when no call intervenes
+		if !onlyClosureWriters(al) {
+			return nil
+		}
+	}
+	captured := false
+	if refs := al.Referrers(); refs != nil {
+		for _, r := range *refs {
+			if mc, ok := r.(*ssa.MakeClosure); ok && closureWrites(mc, al) {
+				captured = true
+			}
+		}
+	}
+	b := ld.Block()
+	idx := -1
+	for i, in := range b.Instrs {
+		if in == ssa.Instruction(ld) {
+			idx = i
+			break
+		}
+	}
+	for depth := 0; depth < 8 && b != nil; depth++ {
+		for i := idx - 1; i >= 0; i-- {
+			switch x := b.Instrs[i].(type) {
+			case *ssa.Store:
+				if x.Addr == ssa.Value(al) {
+					return x.Val
+				}
+			case *ssa.Call:
+				if captured {
+					// a call might invoke the writing closure only if it is handed to it; deferred
+					// closures run at function exit.  Be conservative for direct closure calls.
+					if _, isMC := x.Call.Value.(*ssa.MakeClosure); isMC {
+						return nil
+					}
+				}
+			}
+		}
+		if len(b.Preds) != 1 {
+			return nil
+		}
+		b = b.Preds[0]
+		idx = len(b.Instrs)
+	}
+	return nil
+}
+
+func onlyClosureWriters(al *ssa.Alloc) bool {
+	if al.Referrers() == nil {
+		return false
+	}
+	for _, r := range *al.Referrers() {
+		switch s := r.(type) {
+		case *ssa.Store:
+			if s.Addr != ssa.Value(al) {
+				return false
+			}
+		case *ssa.UnOp, *ssa.DebugRef, *ssa.MakeClosure:
+		default:
+			return false
+		}
+	}
+	return true
 }
